@@ -214,8 +214,8 @@ def run_serve_stream(S: Any, writes_may_fail: bool = False, reader_may_fail: boo
 
     H["Reader.read_next_batch_with_custom_metadata"] = read_next
 
-    def drain(S, reader):
-        S.event("drained")
+    def drain(S, reader, shm=None):
+        S.event("drained", shm)
         if reader_may_fail and S.choose(2) == 1:
             raise_(pa.ArrowInvalid, "garbage after cancel")
 
@@ -306,6 +306,7 @@ def run_serve_stream(S: Any, writes_may_fail: bool = False, reader_may_fail: boo
     S.loop_ghost[("RpcServer._serve_stream", 0)] = ["n_read", "n_process", "n_flush", "n_released"]
     me = make_server(S, ctx["hook"], impl)
     transport = SObj(None, kind="Transport", reader=SObj(None, kind="RawReader"), writer=SObj(None, kind="RawWriter"))
-    out = S.outcome(srv.RpcServer._serve_stream, me, transport, info, {}, stats=SObj(None, kind="Stats"), shm=None)
+    shm_seg = S.ghost.get("__call_shm__")  # a contract may hand the call a segment (C29: drains must be given it)
+    out = S.outcome(srv.RpcServer._serve_stream, me, transport, info, {}, stats=SObj(None, kind="Stats"), shm=shm_seg)
     ctx.update({"W": W, "out": out, "info": info, "header_declared": header_declared, "G": G})
     return ctx
